@@ -1,5 +1,115 @@
 import XsVerif.Driver.Util
-open Lean XsVerif.Driver
+import XsVerif.Model.Derivation
+open Lean XsVerif.Driver XsVerif.Derivation
 
--- stub: replaced when the model of C07 lands
-def main : IO Unit := XsVerif.Driver.run fun _ => .error "C07 driver not implemented"
+/-
+  Line protocol of C07.  One request = one built schema (type hierarchy + global elements) with a
+  batch of queries:
+    {"types":[T..], "elems":[E..], "contentOk":[[ty,variant]..], "fixedOk":[[ty,variant]..],
+     "queries":[Q..]}
+    T = {"base":k|null,"deriv":"extension"|"restriction"|null,"complex":b,"anyType":b,"anySimple":b,
+         "simpleContent":b,"content":k|null,"abstract":b,"block":["extension"|"restriction"..]}
+    E = {"ty":k,"block":[..],"blockSubst":b,"abstract":b,"nillable":b,"fixed":b,"subst":k|null}
+    Q = {"op":"derived","t":k,"u":k,"d":null|"extension"|"restriction"}      -> {"r":true|false|null}
+      | {"op":"blocked","t":k,"e":k}                                           -> {"r":true|false|null}
+      | {"op":"elem","e":k,"declTy":k,"xsi":null|"unknown"|k,"nil":null|str,"text":b,"children":b,"variant":k}
+                                                                               -> {"errs":[kind..]}
+      | {"op":"subst","head":k,"m":k}                                          -> {"v":"accepted|notSubstitute|blocked|fuel"}
+      | {"op":"alt","alts":[[hasTest,result,ty]..],"dflt":k}                   -> {"ty":k}
+  Answer: {"res":[..]} in query order.
+-/
+namespace XsVerif.Driver.C07
+
+def optNat (j : Json) (k : String) : Except String (Option Nat) := do
+  match j.getObjVal? k with
+  | .ok .null => pure none
+  | .ok v => some <$> v.getNat?
+  | .error _ => pure none
+
+def parseMeth (s : String) : Except String Meth :=
+  match s with
+  | "extension" => pure .ext | "restriction" => pure .restr | _ => throw s!"method {s}"
+
+def optMeth (j : Json) (k : String) : Except String (Option Meth) := do
+  match j.getObjVal? k with
+  | .ok (.str s) => some <$> parseMeth s
+  | _ => pure none
+
+def meths (j : Json) (k : String) : Except String (List Meth) := do
+  (← getStrList j k).mapM parseMeth
+
+def parseT (j : Json) : Except String TDef := do
+  return { base := ← optNat j "base", deriv := ← optMeth j "deriv", complex := ← getBool j "complex",
+           anyType := ← getBool j "anyType", anySimple := ← getBool j "anySimple",
+           simpleContent := ← getBool j "simpleContent", content := ← optNat j "content",
+           abstract := ← getBool j "abstract", block := ← meths j "block" }
+
+def parseE (j : Json) : Except String EDecl := do
+  return { ty := ← getNat j "ty", block := ← meths j "block", blockSubst := ← getBool j "blockSubst",
+           abstract := ← getBool j "abstract", nillable := ← getBool j "nillable",
+           fixed := ← getBool j "fixed", subst := ← optNat j "subst" }
+
+def parsePairs (j : Json) : Except String (List (Nat × Nat)) := do
+  (← j.getArr?).toList.mapM fun e => do
+    let p ← e.getArr?
+    if h : p.size = 2 then return (← p[0].getNat?, ← p[1].getNat?) else throw "pair"
+
+def ob (r : Option Bool) : Json := match r with | some b => Json.bool b | none => Json.null
+
+def errName : Err → String
+  | .unknownType => "unknownType" | .notDerived => "notDerived" | .blocked => "blocked"
+  | .abstractType => "abstractType" | .notNillable => "notNillable" | .nilNotBoolean => "nilNotBoolean"
+  | .nilFixed => "nilFixed" | .nilNotEmpty => "nilNotEmpty" | .content => "content"
+  | .fixedValue => "fixedValue" | .fuel => "fuel"
+
+def query (h : Hier) (es : List EDecl) (cs : CSem) (fuel : Nat) (q : Json) : Except String Json := do
+  match (← getStr q "op") with
+  | "derived" =>
+    return Json.mkObj [("r", ob (isDerived fuel h (← getNat q "t") (← getNat q "u") (← optMeth q "d")))]
+  | "blocked" =>
+    let e ← getNat q "e"
+    match es[e]? with
+    | none => throw "element index"
+    | some E => return Json.mkObj [("r", ob (isBlocked fuel h (← getNat q "t") E.block E.ty))]
+  | "elem" =>
+    let e ← getNat q "e"
+    match es[e]? with
+    | none => throw "element index"
+    | some E =>
+      let xsi ← match q.getObjVal? "xsi" with
+        | .ok .null => pure XsiAttr.absent
+        | .ok (.str _) => pure XsiAttr.unknown
+        | .ok v => XsiAttr.named <$> v.getNat?
+        | .error _ => pure XsiAttr.absent
+      let nil ← match q.getObjVal? "nil" with
+        | .ok (.str s) => pure (some s)
+        | _ => pure none
+      let i : Inst := { xsi, nil, hasText := ← getBool q "text", hasChildren := ← getBool q "children",
+                        variant := ← getNat q "variant" }
+      let errs := elementErrs fuel h cs E (← getNat q "declTy") i
+      return Json.mkObj [("errs", Json.arr (errs.map fun x => Json.str (errName x)).toArray)]
+  | "subst" =>
+    let v := match substVerdict fuel h es (← getNat q "head") (← getNat q "m") with
+      | .accepted => "accepted" | .notSubstitute => "notSubstitute" | .blocked => "blocked" | .fuel => "fuel"
+    return Json.mkObj [("v", v)]
+  | "alt" =>
+    let alts ← (← getArr q "alts").toList.mapM fun a => do
+      let p ← a.getArr?
+      if hsz : p.size = 3 then return ((← p[0].getBool?, ← p[1].getBool?, ← p[2].getNat?) : Bool × Bool × Nat)
+      else throw "alt"
+    return Json.mkObj [("ty", selectAlt alts (← getNat q "dflt"))]
+  | op => throw s!"op {op}"
+
+def handle (j : Json) : Except String Json := do
+  let h ← (← getArr j "types").toList.mapM parseT
+  let es ← (← getArr j "elems").toList.mapM parseE
+  let cok ← parsePairs (← j.getObjVal? "contentOk")
+  let fok ← parsePairs (← j.getObjVal? "fixedOk")
+  let cs : CSem := { contentOk := fun t v => cok.contains (t, v), fixedOk := fun t v => fok.contains (t, v) }
+  let fuel := h.length + es.length + 1
+  let res ← (← getArr j "queries").toList.mapM (query h es cs fuel)
+  return Json.mkObj [("res", Json.arr res.toArray)]
+
+end XsVerif.Driver.C07
+
+def main : IO Unit := XsVerif.Driver.run XsVerif.Driver.C07.handle
